@@ -247,3 +247,100 @@ def c19(ctx, rep):
         rep.cov["cases_attributed_to_known_findings"] = dict(hits)
     for gid, r in list(real.items())[:2]:
         rep.samples.append({"grammar": r["peg"], "real": sorted(r["outs"]), "model": sorted(model[gid]["outs"])})
+
+# ------------------------------------------------------------------ C09 (-optimize-grammar)
+def flat_bytes(val):
+    """concatenated matched text of a structural value (b<hex> leaves in order)"""
+    import re
+    return "".join(re.findall(r"b([0-9a-f]*)", val or ""))
+
+def action_trace(trace, keep_params=None):
+    """action events (cid, text, pos) and the label values the unoptimised parser passes to the
+    block (inlining may put further labels into scope; the block's code cannot name them)"""
+    out = []
+    for ev in (trace or "").split(";"):
+        if not ev.startswith("A"):
+            continue
+        parts = ev.split(":")
+        head = ":".join(p for p in parts if not (p.startswith("a=") or p.startswith("st=") or p.startswith("gs=")))
+        args = [p for p in parts if p.startswith("a=")]
+        kept = ""
+        if args and keep_params is not None:
+            cid = parts[0][1:]
+            items = [a for a in args[0][3:-1].split(",") if a and a.split("=")[0] in keep_params.get(cid, set())]
+            kept = ",".join(items)
+        out.append(head + ":a=(" + kept + ")")
+    return ";".join(out)
+
+def block_params(case_line):
+    import re
+    res = {}
+    for m in re.finditer(r"\(block (\d+) \(params([^)]*)\)", case_line):
+        res[m.group(1)] = set(x[1:] for x in m.group(2).split())
+    return res
+
+def replay_c09_known(ctx, k):
+    return True
+
+@prop("C09", replay_known=replay_c09_known)
+def c09(ctx, rep):
+    import json
+    tool = C.build_harness_tool(ctx.sc, "opttool")
+    cases_f, info_f = ctx.sc.path("opt_cases.txt"), ctx.sc.path("opt_info.txt")
+    C.run([tool, "-seed", str(ctx.seed), "-n", str(ctx.q(600, 12000)), "-out", cases_f, "-info", info_f], timeout=3000)
+    with open(cases_f) as f:
+        lines = [l.rstrip("\n") for l in f if l.startswith("(")]
+    infos = {}
+    with open(info_f) as f:
+        for l in f:
+            d = json.loads(l)
+            infos[d["id"]] = d
+    for gid, d in infos.items():
+        if d.get("optimizer_panic"):
+            rep.violation("ast.Optimize panics: %s" % d["optimizer_panic"][:200], {"grammar": d["peg"], "entrypoints": d["entrypoints"]}, found=True)
+    hosts = ctx.hosts()
+    model = corr.run_model(ctx.sc, ctx.model(), ctx.tables(), lines, tag="c09model")
+    impl = corr.run_impl(ctx.sc, hosts, lines, 4000)
+    ref = corr.run_model(ctx.sc, ctx.model(), ctx.tables(), lines, extra="-ref", tag="c09ref")
+    by_id = {corr.case_id(l): l for l in lines}
+    pairs = 0
+    nontriv = 0
+    for cid, l in by_id.items():
+        if not same_on(["out", "val", "errs", "trace"], model.get(cid, {}), impl.get(cid, {})):
+            rep.violation("model/implementation disagree", {"case": l, "model": model.get(cid), "impl": impl.get(cid)}, found=False)
+        if not cid.endswith("~orig"):
+            continue
+        oid = cid[:-5] + "~opt"
+        a, b = impl.get(cid, {}), impl.get(oid, {})
+        ra, rb = ref.get(cid, {}), ref.get(oid, {})
+        pairs += 1
+        if int(a.get("cnt", "0") or 0) > 3:
+            nontriv += 1
+        gid = cid.split("/")[0]
+        keep = block_params(l)
+        def differs(x, y):
+            if (x.get("errs", "") == "") != (y.get("errs", "") == ""):
+                return "one parser accepts the input, the other rejects it"
+            if x.get("out") != y.get("out"):
+                return "outcome differs"
+            if x.get("errs", "") == "" and flat_bytes(x.get("val")) != flat_bytes(y.get("val")):
+                return "the matched text of the returned value differs"
+            if action_trace(x.get("trace"), keep) != action_trace(y.get("trace"), keep):
+                return "actions run at different points or see different text/pos/labels"
+            if x.get("gs") != y.get("gs"):
+                return "globalStore differs"
+            return None
+        why = differs(a, b)
+        if why:
+            rep.violation("-optimize-grammar changes behaviour: " + why,
+                          {"grammar": infos.get(gid, {}).get("peg"), "entrypoints": infos.get(gid, {}).get("entrypoints"),
+                           "case_unoptimized": l, "case_optimized": by_id.get(oid), "unoptimized": a, "optimized": b,
+                           "spec_unoptimized": ra, "spec_optimized": rb}, found=True)
+    rep.cov["evaluations"] = len(lines)
+    rep.cov["distinct_nontrivial"] = nontriv
+    rep.cov["pairs_compared"] = pairs
+    rep.cov["distribution"] = {"grammars": len(infos), "grammars_with_rules_removed_or_inlined": sum(1 for d in infos.values() if d.get("rules_after", 0) < d.get("rules_before", 0)),
+                               "optimizer_panics": sum(1 for d in infos.values() if d.get("optimizer_panic")),
+                               "duplicate_params_after_inlining": sum(1 for d in infos.values() if d.get("dup_params"))}
+    for l in lines[:2]:
+        rep.samples.append({"case": l[:600], "impl": impl.get(corr.case_id(l))})
